@@ -560,6 +560,13 @@ class State(object):
                 return Val(ty, v.z)
             if v.t.kind in ('seq', 'setv', 'fn', 'typeobj', 'tuple', 'opaque'):
                 raise Undecided('cannot box %r into %r' % (v.t, ty))
+            if v.t.kind in ('list', 'set', 'dict') and v.t.args and v.t.args[0].kind == 'unknown':
+                # an empty container literal boxed into a union: it takes the element type of the union's
+                # alternative of the same kind (its contents must be initialised as empty in that heap map)
+                alts = [a for a in ty.args if a.kind == v.t.kind]
+                if len(alts) != 1:
+                    raise Undecided('empty %s literal boxed into %r: element type not determined' % (v.t.kind, ty))
+                self.init_empty(v, alts[0])
             return Val(ty, T.box(v.t, v.z))
         if ty.kind == 'real' and v.t.kind == 'int':
             return Val(ty, z3.ToReal(v.z))
